@@ -644,6 +644,8 @@ static void oracle_c07_file(const std::string& type, const VerCfg& vc, const Scr
 	c07_file_checks(b.file, type + ":" + game_of(vc), vf::strf("%s (%s)", type.c_str(), vc.name), case_json(type, vc, s), st, s.empty());
 }
 
+static void oracle_copy_bytes(const std::string& F, const std::string& keybase, const std::string& what, const J& cj0, Stats& st);
+
 // ---------- linked chains (corpus SP) ----------
 static J chain_json(const sp::Chain& ch, const VerCfg& vc, size_t vary, const Script& s) {
 	return J::obj().set("chain", ch.name).set("version", vc.name).set("vary", (long long) vary).set("member", ch.types[vary]).set("wide", g_wide).set("script", script_json(s));
@@ -665,6 +667,7 @@ static std::vector<Point> run_chain(const sp::Chain& ch, const VerCfg& vc, size_
 	if (A.prop == "C01") c01_file_checks(b.file, keybase, what, cj, st);
 	else if (A.prop == "C02") c02_file_checks(b.file, keybase, what, cj, st);
 	else if (A.prop == "C07") { st.add("files_checked"); c07_file_checks(b.file, keybase, what, cj, st, s.empty()); }
+	else if (A.prop == "C11") oracle_copy_bytes(b.file, keybase, what, cj, st);
 	return b.points;
 }
 
@@ -799,14 +802,30 @@ static void oracle_clone_block(const std::string& type, const VerCfg& vc, const 
 	g_unit_outcomes.insert(vf::fnv(b));
 }
 
+// copy oracle on the bytes of one file (an E1 single-block file or a linked chain); keybase = "<type>:<game>" or "chain:..."
+static void oracle_copy_bytes(const std::string& F, const std::string& keybase, const std::string& what, const J& cj0, Stats& st);
 static void oracle_copy_file(const std::string& type, const VerCfg& vc, const Script& s, Stats& st) {
 	s1::Built b = s1::build_s1(type, vc, s, g_wide);
 	if (!b.ok) { st.add("file_not_built"); return; }
+	oracle_copy_bytes(b.file, type + ":" + game_of(vc), vf::strf("%s (%s)", type.c_str(), vc.name), case_json(type, vc, s), st);
+}
+static void oracle_copy_bytes(const std::string& F, const std::string& keybase, const std::string& what, const J& cj0, Stats& st) {
 	NifFile src, twin;
-	if (s1::load(src, b.file) != 0 || s1::load(twin, b.file) != 0) { st.add("file_not_accepted"); return; }
+	if (s1::load(src, F) != 0 || s1::load(twin, F) != 0) { st.add("file_not_accepted"); return; }
 	st.add("files_checked");
-	J cj = case_json(type, vc, s).set("runner", "e1_main.cpp");
+	J cj = J(cj0).set("runner", "e1_main.cpp");
 	std::string ref = s1::save(twin, true);
+	{
+		// the copy stands alone: the source is destroyed BEFORE the copy is saved (a copy that still reaches into the
+		// source's blocks then touches freed memory, which the sanitizer reports)
+		std::unique_ptr<NifFile> s2(new NifFile());
+		if (s1::load(*s2, F) == 0) {
+			NifFile alone(*s2);
+			s2.reset();
+			std::string gotAlone = s1::save(alone, true);
+			if (gotAlone != ref) st.violation(keybase + ":model-copy-bytes-differ", what + ": a copy saved after its source was destroyed differs from the source's save (" + first_diff(ref, gotAlone) + ")", cj);
+		}
+	}
 	{
 		NifFile copy(src);
 		{
@@ -815,21 +834,21 @@ static void oracle_copy_file(const std::string& type, const VerCfg& vc, const Sc
 			for (uint32_t i = 0; i < hs.GetNumBlocks() && i < hc.GetNumBlocks(); i++) {
 				auto a0 = hs.GetBlock<NiObject>(i), c0 = hc.GetBlock<NiObject>(i);
 				if (a0 && c0 && typeid(*a0) != typeid(*c0)) {
-					st.violation(type + ":" + game_of(vc) + ":model-copy-block-is-another-class", vf::strf("%s (%s): block %u of the copy is a %s, the source's is a %s", type.c_str(), vc.name, i, c0->GetBlockName(), a0->GetBlockName()), cj);
+					st.violation(keybase + ":model-copy-block-is-another-class", vf::strf("%s: block %u of the copy is a %s, the source's is a %s", what.c_str(), i, c0->GetBlockName(), a0->GetBlockName()), cj);
 					break;
 				}
 			}
 		}
 		std::string got = s1::save(copy, true);
-		if (got != ref) st.violation(type + ":" + game_of(vc) + ":model-copy-bytes-differ", vf::strf("%s (%s): a copy-constructed model saves differently from its source (%s)", type.c_str(), vc.name, first_diff(ref, got).c_str()), cj);
+		if (got != ref) st.violation(keybase + ":model-copy-bytes-differ", vf::strf("%s: a copy-constructed model saves differently from its source (%s)", what.c_str(), first_diff(ref, got).c_str()), cj);
 		NifFile assigned;
 		assigned = src;
 		std::string got2 = s1::save(assigned, true);
-		if (got2 != ref) st.violation(type + ":" + game_of(vc) + ":model-copy-bytes-differ", vf::strf("%s (%s): an assigned model saves differently from its source (%s)", type.c_str(), vc.name, first_diff(ref, got2).c_str()), cj);
+		if (got2 != ref) st.violation(keybase + ":model-copy-bytes-differ", vf::strf("%s: an assigned model saves differently from its source (%s)", what.c_str(), first_diff(ref, got2).c_str()), cj);
 	}
 	// the source is untouched by copying and by the copies' destruction
 	std::string after = s1::save(src, true);
-	if (after != ref) st.violation(type + ":" + game_of(vc) + ":source-changed-by-copy", vf::strf("%s (%s): the source saves differently after it was copied (%s)", type.c_str(), vc.name, first_diff(ref, after).c_str()), cj);
+	if (after != ref) st.violation(keybase + ":source-changed-by-copy", vf::strf("%s: the source saves differently after it was copied (%s)", what.c_str(), first_diff(ref, after).c_str()), cj);
 	g_unit_file_outcomes.insert(vf::fnv(ref));
 }
 
@@ -1052,7 +1071,7 @@ int main(int argc, char** argv) {
 		// 16 specs per unit
 		for (size_t i = 0; i < sgspecs.size(); i += 16) { Unit u{0, 0, -1}; u.sg = (long) i; units.push_back(u); }
 	}
-	const bool file_props = A.prop == "C01" || A.prop == "C02" || A.prop == "C07";
+	const bool file_props = A.prop == "C01" || A.prop == "C02" || A.prop == "C07" || (A.prop == "C11" && A.geti("chains", 0) != 0);
 	if (file_props && !A.has("type") && A.geti("chains", 1)) {
 		for (size_t c = 0; c < sp::chains().size(); c++)
 			for (auto vn : sp::chains()[c].versions) {
